@@ -1,6 +1,6 @@
 (* C14: content codings through the body object and through the wire; json / text/plain wrappers.
    gzip, zlib, json and the charset codecs are Section variables; the theorems state what they assume. *)
-From Coq Require Import Arith.Wf_nat.
+From Coq Require Import Arith.Wf_nat Arith.PeanoNat.
 From Httoop Require Import Lib.Bytes Lib.Split Lib.Variant Proofs.SplitP Proofs.CodecsSplit Model.Codecs.
 Local Open Scope N_scope.
 
@@ -65,17 +65,6 @@ Lemma max_chunk_pos : BODY_MAX_CHUNK <> 0%nat.
 Proof. discriminate. Qed.
 
 (* ------------------------------------------------------------------ content codings *)
-Definition all_ascii (d : bytes) : bool := forallb (fun c => bN c <? 128) d.
-
-(* T1: the class of octets Codec.decode(data, None) accepts is exactly ASCII *)
-Lemma default_decodable_ascii d : default_decodable d = all_ascii d.
-Proof.
-  unfold default_decodable, all_ascii. induction d as [|c d IH]; [reflexivity|]. cbn [forallb]. rewrite IH. f_equal.
-  assert (H : forall c, Bool.eqb (inmask CODEC_DEFAULT_DECODABLE c) (bN c <? 128) = true).
-  { apply forall_byte. vm_compute. reflexivity. }
-  apply eqb_prop, H.
-Qed.
-
 Section CodingProofs.
 Variable gz : bytes -> bytes.
 Variable gunz : bytes -> option bytes.
@@ -143,20 +132,20 @@ Theorem body_coding_roundtrip vd c x : callees_ok vd ->
 Proof. intros H. cbn [Codecs.body_decompress Codecs.body_compress]. rewrite codec_raw_encode by exact H. reflexivity. Qed.
 
 (* pinned tree: ASCII content in a body whose charset leaves ASCII text alone *)
-Theorem body_coding_roundtrip_asfound vd c x : callees_ok vd -> all_ascii x = true -> cs_enc x = x ->
+Theorem body_coding_roundtrip_asfound vd c x : callees_ok vd -> default_decodable x = true -> cs_enc x = x ->
   body_decompress AsFound vd (Some c) (body_compress (Some c) x) = COk x.
 Proof.
   intros H Ha Hc. cbn [Codecs.body_decompress Codecs.body_compress]. unfold Codecs.codec_decode.
-  rewrite codec_raw_encode by exact H. rewrite default_decodable_ascii, Ha. unfold body_set_text.
+  rewrite codec_raw_encode by exact H. rewrite Ha. unfold body_set_text.
   destruct x; [reflexivity|]. cbn [nonempty_b]. rewrite Hc. reflexivity.
 Qed.
 
 (* D12: on the pinned tree EVERY body with an octet >= 0x80 fails *)
-Theorem body_coding_binary_fails vd c x : callees_ok vd -> all_ascii x = false ->
+Theorem body_coding_binary_fails vd c x : callees_ok vd -> default_decodable x = false ->
   body_decompress AsFound vd (Some c) (body_compress (Some c) x) = CUnicodeError.
 Proof.
   intros H Ha. cbn [Codecs.body_decompress Codecs.body_compress]. unfold Codecs.codec_decode.
-  rewrite codec_raw_encode by exact H. rewrite default_decodable_ascii, Ha. reflexivity.
+  rewrite codec_raw_encode by exact H. rewrite Ha. reflexivity.
 Qed.
 
 (* ---- through the wire: the composer codes piece by piece, the parser decodes the concatenation ---- *)
@@ -181,11 +170,11 @@ Qed.
 Theorem wire_coding_roundtrip vd c x : wire_callees_ok vd c -> wire_roundtrip Repaired vd c x = COk x.
 Proof. intros H. unfold Codecs.wire_roundtrip. cbn [Codecs.body_decompress]. rewrite wire_raw by exact H. reflexivity. Qed.
 
-Theorem wire_coding_roundtrip_asfound vd c x : wire_callees_ok vd c -> all_ascii x = true -> cs_enc x = x ->
+Theorem wire_coding_roundtrip_asfound vd c x : wire_callees_ok vd c -> default_decodable x = true -> cs_enc x = x ->
   wire_roundtrip AsFound vd c x = COk x.
 Proof.
   intros H Ha Hc. unfold Codecs.wire_roundtrip. cbn [Codecs.body_decompress]. unfold Codecs.codec_decode.
-  rewrite wire_raw by exact H. rewrite default_decodable_ascii, Ha. unfold body_set_text.
+  rewrite wire_raw by exact H. rewrite Ha. unfold body_set_text.
   destruct x; [reflexivity|]. cbn [nonempty_b]. rewrite Hc. reflexivity.
 Qed.
 
@@ -194,14 +183,14 @@ Theorem wire_deflate_asfound_first_piece vt x : zlib_first_stream -> x <> [] ->
   wire_roundtrip vt AsFound Deflate x =
   match vt with
   | Repaired => COk (firstn BODY_MAX_CHUNK x)
-  | AsFound => if all_ascii (firstn BODY_MAX_CHUNK x) then COk (body_set_text cs_enc (firstn BODY_MAX_CHUNK x)) else CUnicodeError
+  | AsFound => if default_decodable (firstn BODY_MAX_CHUNK x) then COk (body_set_text cs_enc (firstn BODY_MAX_CHUNK x)) else CUnicodeError
   end.
 Proof.
   intros Hz Hx. unfold Codecs.wire_roundtrip. rewrite wire_payload_map.
   rewrite pieces_cons by (apply max_chunk_pos || exact Hx). cbn [map concat_bytes].
   change (Codecs.codec_encode gz zc Deflate) with zc.
   destruct vt; cbn [Codecs.body_decompress]; unfold Codecs.codec_decode; cbn [Codecs.codec_raw deflate_raw]; rewrite Hz.
-  - rewrite default_decodable_ascii. destruct (all_ascii _); reflexivity.
+  - destruct (default_decodable _); reflexivity.
   - reflexivity.
 Qed.
 
@@ -221,55 +210,54 @@ Qed.
 End CodingProofs.
 
 (* D53: the decoded ASCII text is re-encoded in the body's charset (pinned tree) - witness UTF-16 *)
-Theorem body_coding_charset_refuted : exists cs x, all_ascii x = true /\
+Theorem body_coding_charset_refuted : exists cs x, default_decodable x = true /\
   forall gz gunz zc zd1 zst vd c, callees_ok gz gunz zc zd1 zst vd ->
   body_decompress gunz zd1 zst (cs_apply cs) AsFound vd (Some c) (body_compress gz zc (Some c) x) <> COk x.
 Proof.
-  exists CsUtf16, [x61]. split; [reflexivity|]. intros gz gunz zc zd1 zst vd c H.
+  exists CsUtf16, [x61]. split; [vm_compute; reflexivity|]. intros gz gunz zc zd1 zst vd c H.
   cbn [body_decompress body_compress]. unfold codec_decode. rewrite (codec_raw_encode gz gunz zc zd1 zst vd c [x61] H).
   vm_compute. discriminate.
 Qed.
 
-Theorem body_coding_binary_refuted : exists x,
-  forall gz gunz zc zd1 zst cs_enc vd c, callees_ok gz gunz zc zd1 zst vd ->
-  body_decompress gunz zd1 zst cs_enc AsFound vd (Some c) (body_compress gz zc (Some c) x) <> COk x.
+(* the hypotheses are satisfiable together.  Toy callees: "gzip" = identity (concatenation of members is
+   concatenation); "zlib" = unary length prefix (n times 01, then 00, then the n octets): self-delimiting *)
+Definition toy_zc (x : bytes) : bytes := repeat x01 (length x) ++ x00 :: x.
+Fixpoint toy_count (d : bytes) : nat :=
+  match d with c :: r => if beq c x01 then S (toy_count r) else O | [] => O end.
+Definition toy_zst (d : bytes) : option (bytes * bytes) :=
+  let n := toy_count d in
+  match skipn n d with
+  | z :: r => if beq z x00 && Nat.leb n (length r) then Some (firstn n r, skipn n r) else None
+  | [] => None
+  end.
+Definition toy_zd1 (d : bytes) : option bytes := match toy_zst d with Some (o, _) => Some o | None => None end.
+
+Lemma toy_count_prefix (x r : bytes) : toy_count (repeat x01 (length x) ++ x00 :: r) = length x.
+Proof. induction x as [|c x IH]; [reflexivity|]. cbn [length repeat app toy_count]. rewrite beq_refl, IH. reflexivity. Qed.
+
+Lemma toy_stream x r : toy_zst (toy_zc x ++ r) = Some (x, r).
 Proof.
-  exists [x80]. intros gz gunz zc zd1 zst cs_enc vd c H.
-  rewrite (body_coding_binary_fails gz gunz zc zd1 zst cs_enc vd c [x80] H); [discriminate | reflexivity].
+  unfold toy_zst, toy_zc. rewrite <- app_assoc. cbn [app]. rewrite toy_count_prefix.
+  rewrite skipn_app, repeat_length, Nat.sub_diag, skipn_all2 by (rewrite repeat_length; lia). cbn [app skipn].
+  rewrite beq_refl, app_length. replace (Nat.leb (length x) (length x + length r)) with true by (symmetry; apply Nat.leb_le; lia).
+  cbn [andb]. rewrite firstn_app_exact. rewrite skipn_app, Nat.sub_diag, skipn_all2 by lia. reflexivity.
 Qed.
 
-(* the hypotheses are satisfiable together: identity "compression" with a one-octet length prefix is a model *)
 Example callees_satisfiable : exists gz gunz zc zd1 zst,
   callees_ok gz gunz zc zd1 zst Repaired /\ callees_ok gz gunz zc zd1 zst AsFound /\ gzip_members gz gunz /\
   zlib_first_stream zc zd1 /\ zlib_empty_error zd1.
 Proof.
-  (* streams: a one-octet tag; the model cannot delimit by itself, so take x = [] only ... use constant functions *)
-  exists (fun x => x), (fun x => Some x).
-  (* zlib: unary length prefix: n times x01, then x00, then the n octets *)
-  pose (zc := fun x : bytes => repeat x01 (length x) ++ x00 :: x).
-  pose (count := fix count (d : bytes) : nat := match d with c :: r => if beq c x01 then S (count r) else O | [] => O end).
-  pose (zst := fun d : bytes => let n := count d in
-                match skipn n d with
-                | z :: r => if beq z x00 && Nat.leb n (length r) then Some (firstn n r, skipn n r) else None
-                | [] => None
-                end).
-  exists zc, (fun d => match zst d with Some (o, _) => Some o | None => None end), zst.
-  assert (Hc : forall x r, count (repeat x01 (length x) ++ x00 :: r) = length x).
-  { intros x r. induction x as [|c x IH]; [reflexivity|]. cbn [length repeat app]. cbn. rewrite IH. reflexivity. }
-  assert (Hs : forall x r, zst (zc x ++ r) = Some (x, r)).
-  { intros x r. unfold zst, zc. rewrite <- app_assoc. cbn [app]. rewrite Hc.
-    rewrite skipn_app, repeat_length, Nat.sub_diag, skipn_all2 by (rewrite repeat_length; lia). cbn [app skipn].
-    rewrite beq_refl, app_length. replace (Nat.leb (length x) (length x + length r)) with true by (symmetry; apply Nat.leb_le; lia).
-    cbn [andb]. rewrite firstn_app_exact. rewrite skipn_app, Nat.sub_diag, skipn_all2 by lia. reflexivity. }
-  assert (Hn : forall x, zc x <> []).
-  { intros x. unfold zc. destruct (repeat x01 (length x)); discriminate. }
-  assert (H1 : forall x r, match zst (zc x ++ r) with Some (o, _) => Some o | None => None end = Some x).
-  { intros x r. rewrite Hs. reflexivity. }
-  repeat split; auto.
-  - intros x. reflexivity.
-  - intros x. reflexivity.
-  - intros x. specialize (H1 x []). rewrite app_nil_r in H1. exact H1.
+  exists (fun x => x), (fun x => Some x), toy_zc, toy_zd1, toy_zst.
+  assert (Hn : forall x, toy_zc x <> []).
+  { intros x. unfold toy_zc. destruct (repeat x01 (length x)); discriminate. }
+  assert (H1 : forall x r, toy_zd1 (toy_zc x ++ r) = Some x).
+  { intros x r. unfold toy_zd1. rewrite toy_stream. reflexivity. }
+  split; [|split; [|split; [|split]]].
+  - split; [intros x; reflexivity|]. split; [intros x r; apply toy_stream | exact Hn].
+  - split; [intros x; reflexivity|]. intros x. specialize (H1 x []). rewrite app_nil_r in H1. exact H1.
   - intros xs. f_equal. induction xs as [|x xs IH]; [reflexivity|]. cbn [map concat_bytes]. rewrite IH. reflexivity.
+  - intros x r. apply H1.
+  - reflexivity.
 Qed.
 
 (* ------------------------------------------------------------------ json, text/plain *)
